@@ -6,6 +6,8 @@ import (
 	"hash/crc32"
 	"io"
 	"reflect"
+	"runtime"
+	"sync"
 
 	"github.com/biogo/hts/cram"
 	"pgregory.net/rapid"
@@ -33,13 +35,22 @@ type SCont struct {
 type SCase struct {
 	Conts  []SCont
 	Chunks []int // sizes returned by successive Read calls (cycled); every one >= 1
+	Par    int   // number of goroutines decoding the stream at the same time (each with its own reader)
+	Cut    int   // selects a truncation inside a multi-byte value of a container header
 }
 
 func specPutITF(b []byte, v int32) []byte { e, _ := specITF8(v); return append(b, e...) }
 func specPutLTF(b []byte, v int64) []byte { return append(b, specLTF8(v)...) }
 func le32(b []byte, v uint32) []byte      { return append(b, byte(v), byte(v>>8), byte(v>>16), byte(v>>24)) }
 
+// spans lists [start,end) of the multi-byte ITF-8/LTF-8 values of container headers in the encoded stream.
 func (c SCase) encode() []byte {
+	b, _ := c.encodeSpans()
+	return b
+}
+
+func (c SCase) encodeSpans() ([]byte, [][2]int) {
+	var spans [][2]int
 	out := append([]byte("CRAM\x03\x00"), make([]byte, 20)...)
 	for _, ct := range c.Conts {
 		var body []byte
@@ -53,22 +64,29 @@ func (c SCase) encode() []byte {
 			body = append(body, b...)
 		}
 		hd := le32(nil, uint32(len(body)))
-		hd = specPutITF(hd, ct.RefID)
-		hd = specPutITF(hd, ct.Start)
-		hd = specPutITF(hd, ct.Span)
-		hd = specPutITF(hd, ct.NRec)
-		hd = specPutLTF(hd, ct.RecCount)
-		hd = specPutLTF(hd, ct.Bases)
-		hd = specPutITF(hd, ct.NBlocks)
-		hd = specPutITF(hd, int32(len(ct.Landmarks)))
+		put := func(enc []byte) {
+			if len(enc) >= 2 {
+				spans = append(spans, [2]int{len(out) + len(hd), len(out) + len(hd) + len(enc)})
+			}
+			hd = append(hd, enc...)
+		}
+		itf := func(v int32) { e, _ := specITF8(v); put(e) }
+		itf(ct.RefID)
+		itf(ct.Start)
+		itf(ct.Span)
+		itf(ct.NRec)
+		put(specLTF8(ct.RecCount))
+		put(specLTF8(ct.Bases))
+		itf(ct.NBlocks)
+		itf(int32(len(ct.Landmarks)))
 		for _, l := range ct.Landmarks {
-			hd = specPutITF(hd, l)
+			itf(l)
 		}
 		hd = le32(hd, crc32.ChecksumIEEE(hd))
 		out = append(out, hd...)
 		out = append(out, body...)
 	}
-	return out
+	return out, spans
 }
 
 type fragReader struct {
@@ -76,6 +94,7 @@ type fragReader struct {
 	chunks []int
 	i      int
 	short  int // Read calls that returned less than asked although more data was there
+	yield  bool
 }
 
 func (f *fragReader) Read(p []byte) (int, error) {
@@ -100,6 +119,9 @@ func (f *fragReader) Read(p []byte) (int, error) {
 	}
 	copy(p, f.b[:n])
 	f.b = f.b[n:]
+	if f.yield {
+		runtime.Gosched() // other streams get to run between the pieces of a value
+	}
 	return n, nil
 }
 
@@ -139,14 +161,61 @@ func drawS(t *rapid.T) SCase {
 	return SCase{
 		Conts:  rapid.SliceOfN(cont, 1, 3).Draw(t, "conts"),
 		Chunks: rapid.SliceOfN(rapid.IntRange(1, 9), 0, 8).Draw(t, "chunks"),
+		Par:    rapid.SampledFrom([]int{1, 1, 2, 4}).Draw(t, "par"),
+		Cut:    rapid.IntRange(0, 1<<16).Draw(t, "cut"),
 	}
 }
 
 func fieldInt(v reflect.Value, name string) int64 { return v.Elem().FieldByName(name).Int() }
 
 func runS(c SCase, rec *h.Rec) {
-	data := c.encode()
-	fr := &fragReader{b: data, chunks: c.Chunks}
+	data, spans := c.encodeSpans()
+	if c.Par > 1 {
+		// independent streams decoded at the same time must not influence each other
+		recs := make([]h.Rec, c.Par)
+		var wg sync.WaitGroup
+		for g := 0; g < c.Par; g++ {
+			wg.Add(1)
+			go func(g int) {
+				defer wg.Done()
+				h.Safe(&recs[g], "concurrent cram stream", func() { decodeS(c, data, true, &recs[g]) })
+			}(g)
+		}
+		wg.Wait()
+		for g := range recs {
+			if recs[g].Failed() {
+				rec.Failf("with %d streams decoded concurrently: %s", c.Par, recs[g].Msg())
+				return
+			}
+		}
+		rec.Class("concurrent_streams")
+	}
+	decodeS(c, data, false, rec)
+	if rec.Failed() {
+		return
+	}
+	// a stream that ends inside a multi-byte value: the announced remainder is not
+	// available, which must be reported (never a clean end, never a decoded value)
+	if len(spans) > 0 {
+		sp := spans[c.Cut%len(spans)]
+		cut := sp[0] + 1 + (c.Cut/len(spans))%(sp[1]-sp[0]-1)
+		r, err := cram.NewReader(&fragReader{b: data[:cut], chunks: c.Chunks})
+		if err == nil {
+			n := 0
+			for r.Next() {
+				n++
+			}
+			if r.Err() == nil {
+				rec.Failf("stream cut at byte %d, inside the %d-byte integer at [%d,%d) of a container header (%d of its bytes present): Next()=false after %d containers with Err()=nil, a clean end (fragments %v)", cut, sp[1]-sp[0], sp[0], sp[1], cut-sp[0], n, c.Chunks)
+				return
+			}
+			rec.Class("cut_inside_value_reported")
+		}
+	}
+}
+
+func decodeS(c SCase, data []byte, yield bool, rec *h.Rec) {
+	fr := &fragReader{b: data, chunks: c.Chunks, yield: yield}
 	r, err := cram.NewReader(fr)
 	if err != nil {
 		rec.Failf("NewReader on a valid CRAM stream read in fragments %v: %v", c.Chunks, err)
